@@ -20,6 +20,7 @@ import TonVerif.Proofs.SrcProof
 import TonVerif.Proofs.SrcProofCtor
 import TonVerif.Proofs.SrcLocate
 import TonVerif.Proofs.SrcLocateWalk
+import TonVerif.Proofs.SrcLocateAccounts
 
 namespace TonVerif.Properties.C11
 open TonVerif TonVerif.Model TonVerif.Proofs.CellSpec TonVerif.Proofs.Prune TonVerif.Proofs.Merkle
@@ -1421,6 +1422,31 @@ theorem c11_src_shard_account_reader (s : PSlice) :
     (Tlb.SrcLoc.ShardAccount false (psliceFrag s)).map (fun p => cell0 p.1) =
       (readShardAccount srcOpaque s).map (fun a => some (tcell a)) :=
   shardAccount_agree s
+
+/-- STEP (b), plain dictionaries: `Rd.dictWalk` (the `parse` / `deserialize_hashmap_node` walk of the parser files, the value reader applied to
+every leaf) returns on a constructed cell EXACTLY when the C10 model `Hashmap.parseEdge` returns on the underlying tree and every leaf value
+passes the reader's test - for every cell (pruned edges anywhere), any non-degenerate start (`0 < n` or a non-empty prefix), any fuel above `n`. -/
+theorem c11_src_dict_walk {rd : Tlb.Frag → Tlb.Rd.R} {ok : Bits → Bool} (hrd : ∀ b r, (rd ⟨b, r⟩).isSome = ok b)
+    (fuel n : Nat) (pfx : Bits) (c : PCell) (hn : n < fuel) (hp : 0 < n ∨ pfx ≠ []) :
+    (Tlb.Rd.dictWalk rd fuel n pfx (tcell c)).isSome = edgeOk ok (Hashmap.parseEdge c.toCell (n : Int) pfx) :=
+  dictWalk_ok hrd fuel n pfx c hn hp
+
+/-- STEP (b), the field readers below the walk: the regenerated `CurrencyCollection` (with `ExtraCurrencyCollection` = `load_dict(32,
+load_var_uint(5))`), `DepthBalanceInfo` and the raw `load_dict(n)` succeed on EVERY slice of constructed cells exactly when the hand readers of
+Model/Locate.lean do, and leave the same rest (bits and references). -/
+theorem c11_src_currency_readers (sp : Bool) (s : PSlice) (n : Nat) (hn : 0 < n) :
+    (Tlb.SrcTx.CurrencyCollection sp (psliceFrag s)).map (·.2) = (readCurrencyCollection s).map psliceFrag ∧
+    (Tlb.SrcBlk.DepthBalanceInfo sp (psliceFrag s)).map (·.2) = (readDepthBalance s).map psliceFrag ∧
+    (Tlb.Rd.loadDictRaw n (psliceFrag s)).map (·.2) = (readDictRaw n s).map psliceFrag :=
+  ⟨currencyCollection_rest sp s, depthBalance_rest sp s, dictRaw_rest n hn s⟩
+
+/-- STEP (b) COMPLETE, the accounts dictionary of the walk: `ShardAccounts.deserialize(accs.begin_parse())[0][key].cell[0]` on the REGENERATED
+parsers (`load_hashmap_aug_e(256, ShardAccount.deserialize, DepthBalanceInfo.deserialize)`, Python tuple / dict glue with decimal int keys) IS
+`loadShardAccounts srcOpaque accs` followed by `dictGet key` of the hand model, for EVERY constructed accounts cell (special, empty, exotic or
+pruned root, pruned edges, malformed leaves) and EVERY key: same "raises / KeyError" verdict, located cell with the same flag, bits, subtree. -/
+theorem c11_src_accounts_lookup (accs : PCell) (key : Nat) :
+    srcAccountsLookup accs key = ((loadShardAccounts srcOpaque accs).bind (Hashmap.dictGet key)).map tcell :=
+  accounts_agree accs key
 
 end SrcWalk
 
